@@ -15,10 +15,10 @@ def check(run):
     common.prove(run, 'C02')
     run.trusted += ['Coq 8.16.1 kernel', 'the totality theorems are those of the modelled kernels (see each property); '
                     'exception-freedom of the un-modelled traversals and of the native libraries is monitored, not proved',
-                    'worker watchdog (SIGALRM) for non-termination']
+                    'worker watchdog (CPU-time timer SIGPROF, wall-clock SIGALRM backstop) for non-termination']
     run.assumptions += ['crash sites and non-terminating documents found on the unchanged tree are listed as open findings '
                         'by site (exception type, file, function), so that a crash at a new site is a violation',
-                        'the per-render time limit is 25 s (quick) / 60 s (thorough): a slower render counts as a hang']
+                        'a render that exceeds 25 s (quick) / 60 s (thorough) of CPU time is re-run with 240 s of CPU time; one that still does not finish counts as non-terminating']
     # ---- adversarial stream
     n = 4000 if thorough else 700
     docs = []
@@ -26,13 +26,30 @@ def check(run):
         html, options = advgen.document(rng)
         docs.append({'html': html, 'options': options})
     outs = common.run_impl('impl_c02', 'render', docs, limit=60 if thorough else 25)
+    # a time-out may be a slow document (hundreds of tiny pages, exponential nesting) or a hang: the timed-out
+    # documents whose stack does not show a listed non-terminating mechanism get 240 s of CPU time (this runs beside
+    # the wide stream below); only those that still do not finish are reported as non-terminating
+    known_sigs = {k.get('signature') for k in common.load_known() if k.get('status', 'open') == 'open'}
+    slow_idx = [i for i, (st, o) in enumerate(outs)
+                if st == 'timeout' and common.timeout_signature(o) not in known_sigs]
+    again = []
+    import threading
+    rerun = threading.Thread(target=lambda: again.extend(
+        common.run_impl('impl_c02', 'render', [docs[i] for i in slow_idx], limit=240, chunksize=1)))
+    rerun.start()
+    wide_out = wide_stream(run, rng, thorough)
+    rerun.join()
+    for i, r in zip(slow_idx, again):
+        outs[i] = r
+    run.stream_info('adversarial', slow_documents=len(slow_idx))
     sites = collections.Counter()
     npages = collections.Counter()
     keys = []
     for d, (st, o) in zip(docs, outs):
         if st == 'timeout':
-            sites['timeout'] += 1
-            run.fail('render does not terminate within the time limit', {'stream': 'adversarial', **d}, signature='timeout')
+            sig = common.timeout_signature(o)
+            sites[sig] += 1
+            run.fail('render does not terminate within the time limit (%s)' % sig, {'stream': 'adversarial', **d, 'where': o}, signature=sig)
             continue
         if st == 'exc':
             sig = site_signature(o)
@@ -55,12 +72,21 @@ def check(run):
                     rule='advgen.py: every display value in every other, lengths in {0, tiny, huge, negative, %, em, auto}, empty '
                          'elements, nesting <= 7, every break value, page sizes 1..500 x 10..1000 px, 13 output option sets; '
                          'distinct = (page count, size, options)')
+    wide_report(run, *wide_out)
+
+
+def wide_stream(run, rng, thorough):
     # ---- the wide (well-formed) grammar must never crash either
     wdocs = [widegen.document(rng) for _ in range(1200 if thorough else 250)]
     outs = common.run_impl('impl_c02', 'render', [{'html': h} for h, _, _ in wdocs], limit=60)
+    return wdocs, outs
+
+
+def wide_report(run, wdocs, outs):
     for (h, _, _), (st, o) in zip(wdocs, outs):
         if st == 'timeout':
-            run.fail('render does not terminate within the time limit', {'stream': 'wide', 'html': h}, signature='timeout')
+            run.fail('render does not terminate within the time limit', {'stream': 'wide', 'html': h, 'where': o},
+                     signature=common.timeout_signature(o))
         elif st == 'exc':
             run.fail('internal error %s at %s' % (o['type'], o['site']), {'stream': 'wide', 'html': h, 'exc': o},
                      signature=site_signature(o))
